@@ -86,6 +86,13 @@ func (m MetavarMatcher) Match(got reflect.Value, d data.Data, r Region) (data.Da
 		return d, false
 	}
 
+	// A metavariable stands for some code. It does not match an optional
+	// child that is absent, like the label of a plain "break" or the bounds
+	// of "a[:]": there would be nothing to reproduce.
+	if k := got.Kind(); (k == reflect.Ptr || k == reflect.Interface) && got.IsNil() {
+		return d, false
+	}
+
 	key := metavarKey(m.Name)
 
 	var md metavarData
